@@ -193,17 +193,24 @@ def coq_deps(rel):
     return deps
 
 
+class _FileLock:
+    def __init__(self, rel):
+        os.makedirs(os.path.join(BUILD, "locks"), exist_ok=True)
+        self.path = os.path.join(BUILD, "locks", rel.replace("/", "_") + ".lock")
+
+    def __enter__(self):
+        self.f = open(self.path, "w")
+        fcntl.flock(self.f, fcntl.LOCK_EX)
+
+    def __exit__(self, *a):
+        fcntl.flock(self.f, fcntl.LOCK_UN)
+        self.f.close()
+
+
 def _compile_one(rel, timeout):
-    os.makedirs(os.path.join(BUILD, "locks"), exist_ok=True)
-    lk = open(os.path.join(BUILD, "locks", rel.replace("/", "_") + ".lock"), "w")
-    fcntl.flock(lk, fcntl.LOCK_EX)
-    try:
-        p = subprocess.run(["timeout", str(timeout), "coqc", "-q", "-Q", ".", "DRF", "-w", COQ_WARN, rel],
-                           cwd=COQ, capture_output=True, text=True)
-        return p.returncode, p.stdout + p.stderr
-    finally:
-        fcntl.flock(lk, fcntl.LOCK_UN)
-        lk.close()
+    p = subprocess.run(["timeout", str(timeout), "coqc", "-q", "-Q", ".", "DRF", "-w", COQ_WARN, rel],
+                       cwd=COQ, capture_output=True, text=True)
+    return p.returncode, p.stdout + p.stderr
 
 
 def coq_make(targets, timeout=1500, force=()):
@@ -231,27 +238,27 @@ def coq_make(targets, timeout=1500, force=()):
     except Broken as e:
         return 2, str(e)
     log_ = []
-    rebuilt = set()
     for rel in order:
         vo = os.path.join(COQ, rel[:-2] + ".vo")
         src = os.path.join(COQ, rel)
-        stale = (rel in force) or (not os.path.exists(vo)) or os.path.getmtime(vo) < os.path.getmtime(src)
-        if not stale:
-            for d in coq_deps(rel):
-                dvo = os.path.join(COQ, d[:-2] + ".vo")
-                if d in rebuilt or os.path.getmtime(dvo) > os.path.getmtime(vo):
-                    stale = True
-                    break
-        if stale:
-            rc, out = _compile_one(rel, timeout)
-            log_.append("COQC %s\n%s" % (rel, out))
-            if rc != 0:
-                try:
-                    os.remove(vo)
-                except OSError:
-                    pass
-                return rc, "\n".join(log_)
-            rebuilt.add(rel)
+        with _FileLock(rel):
+            # (re)decide staleness under the lock: another process may just have built it
+            stale = (rel in force) or (not os.path.exists(vo)) or os.path.getmtime(vo) < os.path.getmtime(src)
+            if not stale:
+                for d in coq_deps(rel):
+                    dvo = os.path.join(COQ, d[:-2] + ".vo")
+                    if (not os.path.exists(dvo)) or os.path.getmtime(dvo) > os.path.getmtime(vo):
+                        stale = True
+                        break
+            if stale:
+                rc, out = _compile_one(rel, timeout)
+                log_.append("COQC %s\n%s" % (rel, out))
+                if rc != 0:
+                    try:
+                        os.remove(vo)
+                    except OSError:
+                        pass
+                    return rc, "\n".join(log_)
     return 0, "\n".join(log_)
 
 
